@@ -7,7 +7,7 @@ THEOREMS = ["C01_original_space_clamp", "C01_filter_output_in_hard_box", "C01_se
             # Props/C01grid.v: about gen/Src_grid.v (force_to_grid, _update_search_bounds_, the gridised + nudged x0 of _init_optim_state_)
             "C01_force_to_grid", "C01_search_box_extreme_grid_points", "C01_search_box_nonempty_iff", "C01_search_box_nonempty_refuted",
             "C01_search_box_sites_agree", "C01_search_box_within_hard_box", "C01_start_nudged_in_box", "C01_start_recheck_exact",
-            "C01_start_in_box_unit_geometry", "C01_start_nudged_in_any_box_refuted", "C01_hand_model_is_source"]
+            "C01_start_in_box_unit_geometry", "C01_start_no_nudge_unit_geometry", "C01_start_nudged_in_any_box_refuted", "C01_hand_model_is_source"]
 ALLOWED_AXIOMS = ["ClassicalDedekindReals.sig_forall_dec", "ClassicalDedekindReals.sig_not_dec",
                   "FunctionalExtensionality.functional_extensionality_dep", "Classical_Prop.classic"]
 LEVEL = "proof"
